@@ -1088,13 +1088,18 @@ pub(crate) fn get_data_type_attrs(input: &[Attribute]) -> Result<(DataTypeAttrs,
             })?;
         } else if let Some(instr) = path.get_ident() {
             #[cfg(feature = "syn")]
+            if matches!(x.tokens.clone().into_iter().next(), Some(proc_macro2::TokenTree::Punct(p)) if p.as_char() == '=') {
+                continue;
+            }
+
+            #[cfg(feature = "syn")]
             let tokens = syn::parse2(x.tokens.clone()).map(|x: OptionalParenthesizedTokenStream|x.content())?;
 
             #[cfg(feature = "syn2")]
             let tokens = match &x.meta {
                 syn2::Meta::Path(_) => TokenStream::new(),
                 syn2::Meta::List(l) => l.tokens.clone(),
-                syn2::Meta::NameValue(_) => Err(syn::Error::new(x.span(), "#[name = \"Value\"] syntax is not supported."))?,
+                syn2::Meta::NameValue(_) => continue,
             };
 
             instrs.push(parse_data_type_instruction(instr, tokens, false, bark)?);
@@ -1161,13 +1166,18 @@ pub(crate) fn get_member_attrs(input: SynDataTypeMember, bark: bool) -> Result<M
             })?;
         } else if let Some(instr) = path.get_ident() {
             #[cfg(feature = "syn")]
+            if matches!(x.tokens.clone().into_iter().next(), Some(proc_macro2::TokenTree::Punct(p)) if p.as_char() == '=') {
+                continue;
+            }
+
+            #[cfg(feature = "syn")]
             let tokens = syn::parse2(x.tokens.clone()).map(|x: OptionalParenthesizedTokenStream|x.content())?;
             
             #[cfg(feature = "syn2")]
             let tokens = match &x.meta {
                 syn2::Meta::Path(_) => TokenStream::new(),
                 syn2::Meta::List(l) => l.tokens.clone(),
-                syn2::Meta::NameValue(_) => Err(syn::Error::new(x.span(), "#[name = \"Value\"] syntax is not supported."))?,
+                syn2::Meta::NameValue(_) => continue,
             };
 
             instrs.push(parse_member_instruction(instr, tokens, false, bark)?);
